@@ -86,8 +86,12 @@ CLAIMED = {
     },
     "C10": {
         "text": "(i) lazily declared shapes: the shape construct_landscape declares (real code on stand-ins) is proved equal to the shape the real model.landscape() returns for ZNCC/NCC/PCC/FSC with and without up-sampling, max_shifts symbolic on one axis of a 6^3 box; loading tasks declare the requested box. "
-                "(ii) thread interleavings of the shared TemplateMaskCache: get() is translated from CPython bytecode to shared-dict steps and all schedules of 2 and 3 threads (switch between any two bytecodes) are bounded-model-checked by z3 (QF_BV): no thread raises, every thread gets the stored value; counterexample schedules are replayed with an opcode-level deterministic scheduler.",
-        "note": "Trusted: z3, symx, the CPython dict model in checks/c10_cache.py, HybridNdi. NOT covered (stated): equality of results across dask schedulers / worker counts / tomogram chunkings and numpy-vs-dask inputs - dask's own execution semantics are not encoded, so that part of the statement is outside this check.",
+                "(ii) thread interleavings of the shared TemplateMaskCache: get() is translated from CPython bytecode to shared-dict steps and all schedules of 2 and 3 threads (switch between any two bytecodes) are bounded-model-checked by z3 (QF_BV): no thread raises, every thread gets the stored value; counterexample schedules are replayed with an opcode-level deterministic scheduler. "
+                "(iii) any other state shared on the model: the source of the model and tilt-model classes is scanned for methods (other than __init__) that assign attributes of self; each such method is executed symbolically from its AST for two tasks "
+                "(values of an uninterpreted sort, calls as uninterpreted functions, every load/store of a written attribute an atomic step), all interleavings are explored and z3 decides whether some interleaving returns results that no sequential order returns; "
+                "a violating schedule is replayed on the real model with an attribute-level scheduler. On the pinned tree no such method exists besides the cache. (iv) bin_image on real dask arrays of symbolic voxels gives the same block sums for irregular chunkings (C15's section).",
+        "note": "Trusted: z3, symx, the CPython dict model in checks/c10_cache.py, HybridNdi, real dask (synchronous) for (iv). Assumptions of (iii): called functions are pure and return objects, attribute loads/stores are atomic, np.array/asarray/copy preserve the value, two tasks optionally preceded by one completed call; "
+                "methods with loops/try/with are reported as inconclusive. NOT covered (stated): equality of results across dask schedulers / worker counts for the loaders as a whole - dask's own execution semantics are not encoded.",
         "ref": "DESIGN.md §4 C10",
     },
     "C17": {
